@@ -1,5 +1,6 @@
 import Driver.Common
 import W2c2Verif.Model.Render
+import W2c2Verif.Model.Sim
 
 namespace Driver
 open W2c2Verif Model
@@ -11,6 +12,9 @@ structure EmitSession where
   bodies : List (Nat × List Gen.VT × List EInstr) := []
   /-- table 0 after element initialisation (`E elem`) -/
   table : List (Option Nat) := []
+  /-- the instance's globals and memory, threaded through successive `E mrun` calls (`E ginit`, `E meminit`, `E data`) -/
+  gs : Sim.GS := {}
+  memMax : Nat := 65536
   deriving Inhabited
 
 def vtOfChar : Char → Option Gen.VT
